@@ -71,3 +71,10 @@ def extract(repo):
     params = {"translated_from": rel, "translated_functions": info.get("functions", []), "translated_loops": info.get("loops", []),
               "generated_file": "lean/RlibModel/Generated/MintSrc.lean", "generated_file_rewritten": info.get("rewritten", False)}
     return params, problems
+
+
+def extra(ctx):
+    """Plain-words verdict on the second tie when the src_* proofs did not build (the generic check only names the file)."""
+    import rs2lean
+    ok = bool(ctx["params"].get("translated_functions"))
+    return rs2lean.tie_findings(["RlibModel/Generated/MintSrc.lean"], "RlibModel/Lemmas/MintSrc.lean", ok, "rlib/mint/src/lib.rs")
